@@ -294,6 +294,7 @@ func suiteC18(cfg Config, res *Result) {
 	c18None(res)
 	c18Linenumbers(res)
 	c18Pinned(res)
+	c18FloatformatTies(res)
 	c18EmptyBody(res)
 	// widthratio through the template
 	wrN := 14
@@ -718,6 +719,26 @@ func c18Pinned(res *Result) {
 		r := implRender("{% autoescape off %}"+c[0]+"{% endautoescape %}", ctx)
 		if r.Panicked || r.Err != "" || r.Out != c[1] {
 			res.add(Finding{Kind: "oracle", Proj: "filter", Sig: "c18-pinned", Case: c[0], Impl: r.String(), Model: "ok " + hx(c[1])})
+		}
+	}
+}
+
+// c18FloatformatTies: the reference (Django) rounds the decimal text of the number half up; an exact
+// tie at the requested place shows the difference from rounding the binary value half to even
+func c18FloatformatTies(res *Result) {
+	for _, c := range []struct {
+		v    float64
+		arg  int
+		want string
+	}{{2.5, 0, "3"}, {0.5, 0, "1"}, {1.5, 0, "2"}, {0.125, 2, "0.13"}, {0.375, 2, "0.38"}, {2.25, 1, "2.3"}, {-2.5, 0, "-3"}, {1.005, 2, "1.01"}, {2.675, 2, "2.68"}} {
+		res.Cases++
+		out, err := pongo2.ApplyFilter("floatformat", pongo2.AsValue(c.v), pongo2.AsValue(c.arg))
+		got := "error"
+		if err == nil {
+			got = out.String()
+		}
+		if got != c.want {
+			res.add(Finding{Kind: "oracle", Proj: "filter", Sig: "c18-floatformat-tie", Case: fmt.Sprintf("%v|floatformat:%d", c.v, c.arg), Impl: got, Model: c.want + " (Decimal(repr(x)).quantize(…, ROUND_HALF_UP))"})
 		}
 	}
 }
